@@ -670,3 +670,21 @@ M('c16i-request-callback-reads-response-length', 'C16', 'break', TX,
   'd->tx->request_entity_len > HTP_COMPRESSION_BOMB_RATIO * d->tx->request_message_len', 'd->tx->request_entity_len > HTP_COMPRESSION_BOMB_RATIO * d->tx->response_message_len', 'C16.i')
 M('c16i-response-driver-clears-request-status', 'C16', 'break', RS,
   '    // Remember the timestamp of the current response data chunk', '    connp->in_status = HTP_STREAM_DATA;\n    // Remember the timestamp of the current response data chunk', 'C16.i')
+
+# ---------------- wave-8 rules and mirrors
+M('c04g-remove-tx-by-ordinal', 'C04', 'break', 'htp/htp_connection.c',
+  '    for (size_t i = 0, n = htp_list_size(conn->transactions); i < n; i++) {\n        htp_tx_t *tx2 = htp_list_get(conn->transactions, i);\n        if (tx2 == tx) {\n            return htp_list_replace(conn->transactions, i, NULL);\n        }\n    }',
+  '    if (htp_list_get(conn->transactions, tx->index) == tx) {\n        return htp_list_replace(conn->transactions, tx->index, NULL);\n    }', 'C04.g')
+M('c07i-wait-before-close-test', 'C07', 'break', RS,
+  '    if (connp->out_status == HTP_STREAM_CLOSED) {\n        connp->out_state = htp_connp_RES_FINALIZE;\n        // Sends close signal to decompressors\n        htp_status_t rc = htp_tx_res_process_body_data_ex(connp->out_tx, NULL, 0);\n        return rc;\n    }\n    if (bytes_to_consume == 0) return HTP_DATA;',
+  '    if (bytes_to_consume == 0) return HTP_DATA;\n    if (connp->out_status == HTP_STREAM_CLOSED) {\n        connp->out_state = htp_connp_RES_FINALIZE;\n        // Sends close signal to decompressors\n        htp_status_t rc = htp_tx_res_process_body_data_ex(connp->out_tx, NULL, 0);\n        return rc;\n    }', 'C07.i')
+M('c07h-usec-borrow-lost', 'C07', 'break', TX,
+  '        *time_spent += (after->tv_sec - before->tv_sec) * 1000000 + after->tv_usec - before->tv_usec;', '        *time_spent += (after->tv_sec - before->tv_sec) * 1000000 + (after->tv_usec > before->tv_usec ? after->tv_usec - before->tv_usec : 0);', 'C07.h')
+M('c07h-formula-regrouped-keep', 'C07', 'keep', TX,
+  '        *time_spent += (after->tv_sec - before->tv_sec) * 1000000 + after->tv_usec - before->tv_usec;', '        *time_spent += (after->tv_usec - before->tv_usec) + 1000000 * (after->tv_sec - before->tv_sec);')
+M('c03h-res-consolidate-diverges', 'C03', 'break', RS,
+  '        *len = connp->out_current_read_offset - connp->out_current_consume_offset;', '        *len = connp->out_current_len - connp->out_current_consume_offset;', 'C03.h')
+M('c09h-outbound-tracker-diverges', 'C09', 'break', 'htp/htp_connection.c',
+  '    conn->out_data_counter += len;    ', '    if (len > 0) conn->out_data_counter += len - 0;', 'C09.h')
+M('c06g-res-chunk-end-diverges', 'C06', 'break', RS,
+  '        if (connp->out_next_byte == LF) {\n            connp->out_state = htp_connp_RES_BODY_CHUNKED_LENGTH;', '        if (connp->out_next_byte == LF || connp->out_next_byte == CR) {\n            connp->out_state = htp_connp_RES_BODY_CHUNKED_LENGTH;', 'C06.g')
